@@ -305,8 +305,7 @@ class C14(vlib.Driver):
         loops and test() pass them, or positionally in signature order (case["args"] == "pos")"""
         callee = getattr(self, "_callee", None) or ag
         if getattr(self, "_argstyle", "kw") == "min":       # rely on the defaults of get_action wherever the value is the default
-            import inspect
-            dflt = {n: p.default for n, p in inspect.signature(type(ag).get_action).parameters.items()}
+            dflt = {"epsilon": 0.0, "action_mask": None, "training": True, "infos": None}     # the DOCUMENTED defaults
             named = {n: v for n, v in named.items()
                      if not (n in dflt and (v is dflt[n] or (isinstance(v, (int, float, bool)) and v == dflt[n])))}
             return callee.get_action(obs, **named)
@@ -402,6 +401,16 @@ class C14(vlib.Driver):
                      lambda c: c["fam"] == "ppo_disc" and c["masks"] is None, lambda c: c["fam"] == "ippo" and c["masks"] is None):
             for c in take(pred, per):
                 c["args"] = "min"
+                if c["fam"] in ("dqn", "cqn") and c["eps"] == 0.0:
+                    # make a wrong default visible: coin 0, values increasing, draws decreasing (exploration would pick index 0)
+                    n = c["n"]
+                    c["q"] = [float(i) for i in range(n)]
+                    rows = len(c["u"])
+                    c["u"] = [[(n - j) / 8.0 for j in range(n)] for _ in range(rows)]
+                    if c["fam"] == "dqn":
+                        c["coins"] = [0.0] * rows
+                    else:
+                        c["coin"] = 0.0
                 out.append(c)
         # non-uniform weights (recorded outputs feed model and oracle)
         for pred in (lambda c: c["fam"] == "dqn" and c["masks"] is not None and not c["single"],
@@ -1284,6 +1293,8 @@ class C14(vlib.Driver):
             return "composite-obs"
         if case.get("wrap"):
             return "rsnorm"
+        if case.get("korder") == "rev":
+            return "key-order"
         return "call"
 
     def oracle_dqn(self, case, obs):
@@ -1327,6 +1338,9 @@ class C14(vlib.Driver):
             elif not sp.contains(a[r]):
                 bad = [j for j in range(d) if not (sp.low[j] <= a[r][j] <= sp.high[j])]
                 out.append(Violation("bounds", f"{fam}:out-of-bounds", f"row {r}: action {a[r].tolist()} outside {box} (dims {bad})"))
+            elif self.out_of_act_range(case["act"], obs["y"][r]):
+                out.append(Violation("activation", f"{fam}:activation-range", f"row {r}: the policy head advertises {case['act']} "
+                                     f"but its output {obs['y'][r]} leaves that activation's range (rescale_action assumes it)"))
             elif not case["training"]:
                 # exploration off: the policy's own (rescaled) action, wherever that lies inside the box, is returned unchanged
                 pol = self.policy_action(case["act"], box, obs["y"][r])
@@ -1335,6 +1349,11 @@ class C14(vlib.Driver):
                     out.append(Violation("policy", f"{fam}:eval-not-policy-action",
                                          f"row {r}: training=False returned {a[r].tolist()} but the policy's action is {pol} (box {box})"))
         return out
+
+    @staticmethod
+    def out_of_act_range(act, y):
+        rng_ = {"Tanh": (-1.0, 1.0), "Softsign": (-1.0, 1.0), "Sigmoid": (0.0, 1.0)}.get(act)
+        return rng_ is not None and any(not (rng_[0] <= float(v) <= rng_[1]) for v in y)
 
     @staticmethod
     def policy_action(act, box, y):
